@@ -111,6 +111,10 @@ type Engine struct {
 	failed   *Cmd // refused, not yet accepted on a retry
 	stall    chan struct{} // non-nil: the forwarder does not answer (ExecMgmtCmd blocks until released)
 	handlers map[uint64]ndn.InterestHandler
+	// wire mode (wire.go): every expressed Interest is kept with its wire for the harness network
+	Wire     bool
+	Out      []OutPkt
+	prefixes []prefixHandler
 }
 
 // Stall makes the forwarder unresponsive: every ExecMgmtCmd blocks until Release.
@@ -182,6 +186,7 @@ func (e *Engine) AttachHandler(prefix enc.Name, handler ndn.InterestHandler) err
 		e.handlers = map[uint64]ndn.InterestHandler{}
 	}
 	e.handlers[prefix.Hash()] = handler
+	e.prefixes = append(e.prefixes, prefixHandler{prefix.Clone(), handler})
 	return nil
 }
 
@@ -196,6 +201,17 @@ func (e *Engine) RegisterRoute(prefix enc.Name) error   { return nil }
 func (e *Engine) UnregisterRoute(prefix enc.Name) error { return nil }
 
 func (e *Engine) Express(interest *ndn.EncodedInterest, cb ndn.ExpressCallbackFunc) error {
+	if e.Wire {
+		life := 4 * time.Second
+		if interest.Config != nil && interest.Config.Lifetime != nil {
+			life = *interest.Config.Lifetime
+		}
+		e.mu.Lock()
+		defer e.mu.Unlock()
+		e.Out = append(e.Out, OutPkt{Name: interest.FinalName.Clone(), Wire: interest.Wire.Join(), Cb: cb,
+			Deadline: time.Now().Add(life)})
+		return nil
+	}
 	if cb == nil {
 		return nil // sync Interests: no reply expected
 	}
@@ -300,6 +316,7 @@ type Node struct {
 	Cfg  *config.Config
 	Eng  *Engine
 	R    *dv.Router
+	done chan struct{} // wire mode: closed when Router.Start has returned
 }
 
 type Sim struct {
@@ -307,6 +324,12 @@ type Sim struct {
 	byHash  map[uint64]int
 	stopped bool
 	svsOn   map[int]bool // routers whose prefix-table SvSync has been started
+	// wire mode (wire.go)
+	wire     bool
+	inflight []*flightPkt
+	waiting  []*waitingInterest
+	replies  []*flightPkt
+	replyMu  sync.Mutex
 }
 
 const Network = "/verif"
@@ -386,6 +409,14 @@ func (s *Sim) Close() {
 		return
 	}
 	s.stopped = true
+	if s.wire {
+		synctest.Wait()
+		for _, nd := range s.Nodes {
+			nd.stopWire()
+		}
+		synctest.Wait()
+		return
+	}
 	s.Settle()
 	for i, nd := range s.Nodes {
 		if s.svsOn[i] {
